@@ -423,8 +423,12 @@ impl<T: RealNumber> DecisionTreeRegressor<T> {
                     || gain > self.nodes[visitor.node].split_score.unwrap()
                 {
                     self.nodes[visitor.node].split_feature = j;
+                    // for neighbouring floating-point values the midpoint rounds up to the
+                    // upper one, which `x <= split_value` would route to the wrong child
+                    let upper = visitor.x.get(*i, j);
+                    let midpoint = (upper + prevx) / T::two();
                     self.nodes[visitor.node].split_value =
-                        Option::Some((visitor.x.get(*i, j) + prevx) / T::two());
+                        Option::Some(if midpoint >= upper { prevx } else { midpoint });
                     self.nodes[visitor.node].split_score = Option::Some(gain);
                     visitor.true_child_output = true_mean;
                     visitor.false_child_output = false_mean;
